@@ -1689,6 +1689,10 @@ def simplify_call(fname, recv, args, kw):
             return T.num(len(a[1]))
         if a[0] == "map" and a[4] == T.TRUE:
             return ("call", "len", (a[3],), ())
+    if fname == "map" and len(args) == 2 and args[0][0] in ("mod", "fn") and isinstance(args[0][1], str):
+        # map(f, xs) with a named function is [f(x) for x in xs]
+        b_ = ("bv", "map%d" % (abs(hash(args)) % 10 ** 9))
+        return mk_map(simplify_call(args[0][1], None, (b_,), ()), b_, args[1])
     if fname == "map" and len(args) == 2 and args[0][0] == "lambda" and len(args[0][1]) == 1:
         lam = args[0]
         return mk_map(lam[2], lam[1][0], args[1])
